@@ -47,7 +47,7 @@ def RevokeConnectionCode : List String := ["s.claimCode", "release", "connCodeRe
 def SvcCreatePortMapping : List String := ["idManager.GeneratePortMappingID", "HandleErrorWithIDReleaseString", "mappingRepo.CreatePortMapping", "HandleErrorWithIDReleaseString", "mappingRepo.AddMappingToClient", "mappingRepo.AddMappingToClient"]
 def TryClaim : List String := ["casStore.SetNX"]
 def Update : List String := ["code.TimeRemaining", "r.Delete", "storage.Set", "storage.Set"]
-def claimCode : List String := ["connCodeRepo.TryClaim", "connCodeRepo.ReleaseClaim", "connCodeRepo.ReleaseClaim"]
+def claimCode : List String := ["connCodeRepo.TryClaim", "connCodeRepo.ReleaseClaim"]
 end Skel
 
 end Gen
